@@ -17,7 +17,7 @@ RULE = (
     "manager; (b) Hypothesis-generated long histories with three ids and generated mappings. Oracle: a reference model of "
     "(systems, current, template) that predicts accept/reject, GetUnitSystems order, GetCurrent().GetId(), every system's "
     "mapping, GetUnitSystemById, GetNewId not in ids, GetCategoryDefaultUnit, GetQuantityDefaultUnit, ConvertToCurrent "
-    "(db float conversion into the model's default unit, or unchanged) and the exact sequence of on_current / "
+    "(db float conversion into the model's default unit, or unchanged; amounts 2.5, 3, 0 and 0.0, length / time / temperature incl. degC and degF into K) and the exact sequence of on_current / "
     "on_unit_changed notifications (re-selecting the current system may or may not notify; after removing the current "
     "system any registered system or none may be selected); a rejected call leaves the model-visible state and the "
     "notification log untouched. Non-trivial = history with a removal or a default-unit change after a change of the "
@@ -29,7 +29,7 @@ ASSUMPTIONS = [
 ]
 BUDGET_S = {"quick": 150, "thorough": 1500}
 TEMPLATE_UNITS = {"length": "m", "time": "s"}
-MAPPINGS = {"none": None, "len": {"length": "cm"}, "both": {"length": "m", "time": "s"}}
+MAPPINGS = {"none": None, "len": {"length": "cm"}, "both": {"length": "m", "time": "s", "temperature": "K"}}
 
 
 def mk_ops(ids):
@@ -219,7 +219,8 @@ def run_history(ctx, seq, fail, db):
             return flags
         # conversions into the current default units
         cm = M.sys.get(M.cur, {}) if M.cur is not None else {}
-        for cat, unit, x in (("length", "ft", 2.5), ("time", "min", 3.0)):
+        # (amounts include zero and a unit with an offset: 0 degC is 273.15 K, not "nothing to convert")
+        for cat, unit, x in (("length", "ft", 2.5), ("time", "min", 3.0), ("temperature", "degC", 0.0), ("temperature", "degF", -40.0), ("length", "ft", 0.0), ("time", "min", 0)):
             ctx.ev()
             want = (db.Convert(cat, unit, cm[cat], x), cm[cat]) if cat in cm else (x, unit)
             got = mgr.ConvertToCurrent(cat, unit, x)
@@ -238,11 +239,11 @@ def run_history(ctx, seq, fail, db):
 
 def gen_op():
     ids = st.sampled_from(["a", "b", "c"])
-    cats = st.sampled_from(["length", "time"])
-    units = {"length": ["m", "cm", "km", "ft"], "time": ["s", "min", "h"]}
+    cats = st.sampled_from(["length", "time", "length", "time", "temperature"])
+    units = {"length": ["m", "cm", "km", "ft"], "time": ["s", "min", "h"], "temperature": ["K", "degF", "degC", "degR"]}
     mapping = st.one_of(
         st.sampled_from(["none", "len", "both", "shared"]),
-        st.fixed_dictionaries({}, optional={"length": st.sampled_from(units["length"]), "time": st.sampled_from(units["time"])}),
+        st.fixed_dictionaries({}, optional={"length": st.sampled_from(units["length"]), "time": st.sampled_from(units["time"]), "temperature": st.sampled_from(units["temperature"])}),
     )
     return st.one_of(
         st.sampled_from(OPS),
